@@ -126,6 +126,36 @@ HEX_TASKS = {
         H + "has_reading", returns=f"{FIRST('-1')} is not None", props=["C20", "C19"], use_at_calls=False, pure=True)),
 }
 
+def hexital_member_builder(ex, st):
+    """a Hexital with one registered member (a real EMA built by the real constructor over the default manager's candles)"""
+    import z3
+    from hexvc.objects import instantiate
+    from hexvc.state import DictP, ObjP
+    from hexvc.tasks import new_series
+    from hexvc.values import SInt
+    src = ex.ctx.source
+    hcls = src.module("hexital.core.hexital").classes["Hexital"]
+    mcls = src.module("hexital.core.candle_manager").classes["CandleManager"]
+    icls = src.module("hexital.indicators.ema").classes["EMA"]
+    for c in (hcls, mcls, icls):
+        src.resolve_class_bases(c)
+    a = new_series(st, "base")
+    outs = [(s1, o) for s1, o in instantiate(ex, icls, [], {"candles": a, "period": SInt(z3.Int("period")), "fullname_override": "first"}, st, None)]
+    keep = [(s1, o) for s1, o in outs if ex.ctx.feasible(s1) and s1.heap[o.oid].fields.get("candles") == a]
+    st1, ind = keep[0]
+    m0 = st1.heap[ind.oid].fields["_candles"]
+    h = st1.alloc(ObjP(hcls, {"name": "hex", "_candles": st1.alloc(DictP({"default": m0})), "_indicators": st1.alloc(DictP({"first": ind}))}))
+    yield st1, [h, "first"], {}, {"self": h, "name": "first", "base": a, "ind": ind}
+
+
+HEX_TASKS[H + "reading_as_list"] = dict(builder=hexital_member_builder, contract=Contract(
+    H + "reading_as_list",
+    ensures={
+        "one-entry-per-candle": "LenOf(result) == Len(base)",
+        "entries-are-the-readings": "forall(0, Len(base), lambda j: same(Elem(result, j), Rd(base, j, 'first')))",
+    },
+    result_type="None", props=["C20", "C19"], use_at_calls=False, pure=True))
+
 CONTRACTS += [
     Contract(I + "__str__", types={"self": "indicator"}, ensures={"is-a-string": "isinstance_str(result)"}, result_type="None",
              props=["C19"], use_at_calls=False, pure=True),
@@ -205,6 +235,33 @@ EXACT = {"first-touched-iff-named": "iff(i1.touched == True, name == n1)", "seco
 for _op in ("purge", "calculate", "recalculate"):
     HEX_TASKS[H + _op + "#by-name"] = dict(qualname=H + _op, builder=hexital_ops_builder, natives=OPS_NATIVES,
                                            contract=Contract(H + _op, ensures=dict(EXACT), result_type="None", props=["C13", "C14"], use_at_calls=False))
+
+
+# ---- C14: Hexital.calculate_index hands the caller's index to every selected member unchanged (each member resolves a
+# negative index against ITS OWN candle list: members on derived timeframes have lists of other lengths)
+def _got_index(ex, st, args, kwargs, node):
+    def gen():
+        o = st.heap[args[0].oid]
+        o.fields["touched"] = True
+        o.fields["got"] = args[1] if len(args) > 1 else kwargs.get("start_index", kwargs.get("index"))
+        yield st, None
+    return gen()
+
+
+def hexital_index_builder(ex, st):
+    import z3
+    from hexvc.values import SInt
+    for st1, args, kwargs, env in hexital_ops_builder(ex, st):
+        ix = SInt(z3.Int("index"))
+        env = dict(env, index=ix)
+        yield st1, [args[0], None, ix], {}, env
+
+
+HEX_TASKS[H + "calculate_index#all-members"] = dict(
+    qualname=H + "calculate_index", builder=hexital_index_builder, natives={I + "calculate_index": _got_index},
+    contract=Contract(H + "calculate_index", ensures={
+        "every-member-gets-the-callers-index": "i1.touched == True and i2.touched == True and i1.got == index and i2.got == index"},
+        result_type="None", props=["C14"], use_at_calls=False))
 
 
 # ---- C13: removing one member leaves the other members and every candle manager in place
@@ -462,7 +519,11 @@ def validate_existing_builder(ex, st):
     m0, m1 = mk(None), mk("T5")
     h = st.alloc(ObjP(hcls, {"name": "hex", "timeframe": None, "timeframe_fill": False, "candles_lifespan": None, "candlestick_type": None,
                              "_candles": st.alloc(DictP({"default": m0, "T5": m1})), "_indicators": st.alloc(DictP({}))}))
-    st1, ind = list(instantiate(ex, icls, [], {"timeframe": "T5", "period": SInt(z3.Int("period"))}, st, None))[0]
+    from hexvc.timevals import TimeDeltaV
+    from hexvc.values import SBool
+    # the members ask for a configuration of their own (lifespan, fill): inside a Hexital they adopt the manager's, never the reverse
+    st1, ind = list(instantiate(ex, icls, [], {"timeframe": "T5", "period": SInt(z3.Int("period")), "candles_lifespan": TimeDeltaV(z3.Int("member_life")),
+                                               "timeframe_fill": SBool(z3.Bool("member_fill"))}, st, None))[0]
     st2, ind2 = list(instantiate(ex, icls, [], {"timeframe": "T5", "period": SInt(z3.Int("period2")), "fullname_override": "second"}, st1, None))[0]
     lst = st2.alloc(ListP([ind, ind2]))
     yield st2, [h, lst], {}, {"self": h, "indicators": lst, "ind": ind, "ind2": ind2, "m0": m0, "m1": m1}
@@ -473,7 +534,9 @@ HEX_TASKS[H + "_validate_indicators#existing-timeframe"] = dict(
     contract=Contract(H + "_validate_indicators", ensures={
         "registered-manager-is-kept": "self._candles['T5'] is m1 and self._candles['default'] is m0",
         "new-members-join-the-registered-manager": "ind._candles is m1 and ind2._candles is m1",
-    }, result_type="None", props=["C08"], use_at_calls=False))
+        "members-adopt-the-managers-configuration-never-the-reverse": "m1.candles_lifespan is None and m1.timeframe_fill == False and m1.timeframe == 'T5'"
+                                                                      " and m0.candles_lifespan is None and ind.candles_lifespan is None and ind.timeframe_fill == False",
+    }, result_type="None", props=["C08", "C13"], use_at_calls=False))
 
 
 # ---- C08 / C19: Hexital.append hands the caller's candles to every manager (derived timeframes first: the default
